@@ -9,6 +9,7 @@ latency × windowScale) over the sliding window with the current bucket ignored.
 import GoZero.C02.Capacity
 import GoZero.C02.Interleave
 namespace GoZero.C02
+open Conc
 
 /-- **Sheds only when hot and busy.**  For every shedder state, time, checker verdict and CPU reading:
 if `Allow` returns ErrServiceOverloaded then the CPU verdict at that call was "over threshold", or shedding
@@ -224,27 +225,258 @@ theorem monitor_sound (window buckets : Nat) (threshold : Int) (t0 : Nat)
     (wref_init window buckets threshold t0 hb hw)
   exact monitor_sound_of_ref wc _ _ inv.1 inv.2 cpuOver cpu
 
-/-! ### every interleaving, any number of goroutines (model: Interleave.lean) -/
+/-! ### every interleaving, any number of goroutines (model: Interleave.lean)
+
+Every access of Allow / Pass / Fail to shared memory is a step of its own; goroutines and the clock interleave
+arbitrarily.  Each register a goroutine loads is tied by a ghost to the shared state at the step of the load. -/
+
+/-- the interleaving model computes the same capacity estimate and limit as the sequential model. -/
+theorem conc_limit_is_model_limit (s : Shedder) (now : Nat) (cpu : Int) :
+    s.maxFlight now = Conc.capOf ⟨s.cpuThreshold, s.windowScale⟩ (s.maxPass now) (s.minRt now)
+    ∧ s.limit now cpu = Conc.limC ⟨s.cpuThreshold, s.windowScale⟩ (s.maxPass now) (s.minRt now) cpu := ⟨rfl, rfl⟩
+
+/-- **The step machine refines to the sequential model.**  One goroutine running alone (no other goroutine, no
+clock tick) through the steps of `Allow` — every shared access at its own step — ends with exactly the verdict and
+the shared state of the sequential model's `Shedder.allow` (the model tied to the source and compared with the
+implementation on every operation), for every shedder state, time, checker verdict and CPU reading. -/
+theorem solo_allow_is_model_allow (s : Shedder) (now : Nat) (over : Bool) (cpu : Int) :
+    let r := Conc.solo (Conc.cfgOf s) { over := over, cpu := cpu, clear := false } 14
+      (Conc.ofShedder s now, Th.fresh (Conc.ofShedder s now))
+    r.1 = Conc.ofShedder (s.allow now over cpu).1 now
+    ∧ (r.2.pc = (if (s.allow now over cpu).2 = .overloaded then PC.shed else PC.stamp)) := by
+  intro r
+  have hl : limC (Conc.cfgOf s) (maxPassOf (s.passCounter.visible now)) (minRtOf (s.rtCounter.visible now)) cpu
+      = s.limit now cpu := rfl
+  have hlo : ∀ o : Bool, (s.afterGate now o).limit now cpu = s.limit now cpu := fun o => afterGate_limit s now o now cpu
+  have hl2 : ({ s with overloadTime := now } : Shedder).limit now cpu = s.limit now cpu := rfl
+  cases over
+  · by_cases hd : s.droppedRecently = true
+    · by_cases h0 : s.overloadTime = 0
+      · simp [r, Conc.solo, thStep, Th.fresh, Conc.ofShedder, hd, h0, Shedder.allow, Shedder.shouldDrop, Shedder.gate,
+          Shedder.stillHot, Shedder.allowWith, Shedder.afterGate, Shedder.afterStillHot]
+      · by_cases hw : now - s.overloadTime < coolOffNs
+        · by_cases ha : s.avgFlying > s.limit now cpu
+          · by_cases hf : (s.flying : Rat) > s.limit now cpu
+            · simp [r, Conc.solo, thStep, Th.fresh, Conc.ofShedder, hd, h0, hw, ha, hf, hl, limOf, Shedder.allow, Shedder.shouldDrop, Shedder.gate,
+                Shedder.stillHot, Shedder.allowWith, Shedder.afterGate, Shedder.afterStillHot, Shedder.highThru]
+            · simp [r, Conc.solo, thStep, Th.fresh, Conc.ofShedder, hd, h0, hw, ha, hf, hl, limOf, Shedder.allow, Shedder.shouldDrop, Shedder.gate,
+                Shedder.stillHot, Shedder.allowWith, Shedder.afterGate, Shedder.afterStillHot, Shedder.highThru]
+          · simp [r, Conc.solo, thStep, Th.fresh, Conc.ofShedder, hd, h0, hw, ha, hl, Shedder.allow, Shedder.shouldDrop, Shedder.gate,
+              Shedder.stillHot, Shedder.allowWith, Shedder.afterGate, Shedder.afterStillHot, Shedder.highThru]
+        · simp [r, Conc.solo, thStep, Th.fresh, Conc.ofShedder, hd, h0, hw, Shedder.allow, Shedder.shouldDrop, Shedder.gate,
+            Shedder.stillHot, Shedder.allowWith, Shedder.afterGate, Shedder.afterStillHot]
+    · have hd' : s.droppedRecently = false := by simpa using hd
+      simp [r, Conc.solo, thStep, Th.fresh, Conc.ofShedder, hd', Shedder.allow, Shedder.shouldDrop, Shedder.gate,
+        Shedder.stillHot, Shedder.allowWith, Shedder.afterGate, Shedder.afterStillHot]
+  · by_cases ha : s.avgFlying > s.limit now cpu
+    · by_cases hf : (s.flying : Rat) > s.limit now cpu
+      · simp [r, Conc.solo, thStep, Th.fresh, Conc.ofShedder, ha, hf, hl, hl2, limOf, Shedder.allow, Shedder.shouldDrop, Shedder.gate,
+          Shedder.allowWith, Shedder.afterGate, Shedder.systemOverloaded, Shedder.highThru]
+      · simp [r, Conc.solo, thStep, Th.fresh, Conc.ofShedder, ha, hf, hl, hl2, limOf, Shedder.allow, Shedder.shouldDrop, Shedder.gate,
+          Shedder.allowWith, Shedder.afterGate, Shedder.systemOverloaded, Shedder.highThru]
+    · simp [r, Conc.solo, thStep, Th.fresh, Conc.ofShedder, ha, hl, hl2, Shedder.allow, Shedder.shouldDrop, Shedder.gate,
+        Shedder.allowWith, Shedder.afterGate, Shedder.systemOverloaded, Shedder.highThru]
+
+
+/-- the same for `Pass` / `Fail`: alone, the steps of a resolution compute `Shedder.pass` / `Shedder.fail`. -/
+theorem solo_resolve_is_model_resolve (s : Shedder) (now start : Nat) (pass : Bool) :
+    (Conc.soloResolve (Conc.cfgOf s) { pass := pass } 6
+      (Conc.ofShedder s now, { Th.fresh (Conc.ofShedder s now) with pc := .inflight, start := start })).1
+      = Conc.ofShedder (if pass then s.pass now start else s.fail) now := by
+  cases pass <;>
+    simp [Conc.soloResolve, thStep, Th.fresh, Conc.ofShedder, Shedder.pass, Shedder.fail, Shedder.release]
+
 
 /-- **In-flight conservation under every schedule.**  With any number `n` of request goroutines running
-Allow / Pass / Fail concurrently (each shared access one atomic step, any interleaving), in every reachable
-state the `flying` counter equals the number of goroutines that have been admitted and have not yet resolved
-their promise. -/
-theorem flying_conservation_all_schedules (n : Nat) (s : Conc.Sys) (h : Conc.Reach n s) :
-    s.flying = (Conc.inFlight s : Int) :=
-  (Conc.reach_inv n s h).conserve
+Allow / Pass / Fail concurrently (each shared access one atomic step, any interleaving with each other and with
+the clock), in every reachable state the `flying` counter equals the number of goroutines that have been
+admitted and have not yet resolved their promise. -/
+theorem flying_conservation_all_schedules (cfg : Cfg) (sh0 : Shared) (n : Nat) (s : Sys)
+    (h : Reach cfg sh0 n s) : s.sh.flying = (Conc.inFlight s : Int) :=
+  (reach_inv s h).conserve
 
-/-- **A shed under every schedule** is decided on a value of `flying` that was, at its read instant, the
-number of requests in flight and at least 1 (limit = maxFlight·factor ≥ 1/10): with nothing in flight at that
-instant no goroutine can be shed. -/
-theorem shed_read_at_least_one_in_flight (n : Nat) (s : Conc.Sys) (h : Conc.Reach n s) (t : Conc.Th)
-    (ht : t ∈ s.ths) (hd : t.pc = 2) : 1 ≤ t.rf :=
-  (Conc.reach_inv n s h).dropped t ht hd
+/-- **Sheds only when hot and busy, under every schedule — each conjunct at its own read instant.**
+If a goroutine's Allow has decided to return ErrServiceOverloaded (it is past the last comparison of
+`highThru`), then there are reachable states `sAvg`, `sMp`, `sRt`, `sFly` — the instants at which it read the moving
+average, the pass window, the latency window and the `flying` counter, in this order, all before now — such that
+* the checker's verdict for this call was "over threshold", or there are three earlier instants, in order, at
+  which `droppedRecently` was set, `overloadTime` was non-zero, and the clock was less than one second past
+  that `overloadTime`;
+* the number of goroutines in flight at `sFly` exceeds 10 % of the capacity estimate formed from the peak pass
+  count of the window as it stood at `sMp` and the minimum latency of the window as it stood at `sRt`;
+* the moving average at `sAvg` exceeds 10 % of that estimate;
+* at least one request was in flight at `sFly`: with nothing in flight at the read no goroutine is shed. -/
+theorem shed_only_if_hot_and_busy_all_schedules (cfg : Cfg) (sh0 : Shared) (n : Nat) (s : Sys)
+    (h : Reach cfg sh0 n s) (t : Th) (ht : t ∈ s.ths) (hd : t.pc = .logHot ∨ t.pc = .setDr ∨ t.pc = .shed) :
+    ∃ sAvg sMp sRt sFly : Sys,
+      Reach cfg sh0 n sAvg ∧ Reach cfg sh0 n sMp ∧ Reach cfg sh0 n sRt ∧ Reach cfg sh0 n sFly
+      ∧ sAvg.steps ≤ sMp.steps ∧ sMp.steps ≤ sRt.steps ∧ sRt.steps ≤ sFly.steps ∧ sFly.steps ≤ s.steps
+      ∧ (t.over = true ∨
+          ∃ sDr sOt sNow : Sys, Reach cfg sh0 n sDr ∧ Reach cfg sh0 n sOt ∧ Reach cfg sh0 n sNow
+            ∧ sDr.steps ≤ sOt.steps ∧ sOt.steps ≤ sNow.steps ∧ sNow.steps ≤ sAvg.steps
+            ∧ sDr.sh.dropped = true ∧ sOt.sh.overloadTime ≠ 0
+            ∧ sNow.sh.now - sOt.sh.overloadTime < 1000000000)
+      ∧ 10 * ((Conc.inFlight sFly : Int) : Rat) >
+          capOf cfg (maxPassOf (sMp.sh.passC.visible sMp.sh.now)) (minRtOf (sRt.sh.rtC.visible sRt.sh.now))
+      ∧ 10 * sAvg.sh.avg >
+          capOf cfg (maxPassOf (sMp.sh.passC.visible sMp.sh.now)) (minRtOf (sRt.sh.rtC.visible sRt.sh.now))
+      ∧ 1 ≤ Conc.inFlight sFly := by
+  have inv := reach_inv s h
+  have hl := inv.loc t ht
+  have hst : t.pc.stage = 6 := by rcases hd with h | h | h <;> simp [h, PC.stage]
+  have hgate := hl.gate (by omega)
+  obtain ⟨⟨sA, rA, eA⟩, hravg, _, hoA⟩ := hl.avg (by omega)
+  obtain ⟨⟨sM, rM, eM⟩, hrmp, hAM, _⟩ := hl.mp (by omega)
+  obtain ⟨⟨sR, rR, eR⟩, hrrt, hMR, _⟩ := hl.rt (by omega)
+  have hcmp := hl.cmp (by omega)
+  obtain ⟨⟨sF, rF, eF⟩, hrf, hflim, hRF, hFl⟩ := hl.fly (by omega)
+  have hlast := inv.last t ht
+  have sA_sh : sA.sh = t.gAvg.sh := by rw [← eA]; rfl
+  have sM_sh : sM.sh = t.gMp.sh := by rw [← eM]; rfl
+  have sR_sh : sR.sh = t.gRt.sh := by rw [← eR]; rfl
+  have sF_sh : sF.sh = t.gFly.sh := by rw [← eF]; rfl
+  have sA_seq : sA.steps = t.gAvg.seq := by rw [← eA]; rfl
+  have sM_seq : sM.steps = t.gMp.seq := by rw [← eM]; rfl
+  have sR_seq : sR.steps = t.gRt.seq := by rw [← eR]; rfl
+  have sF_seq : sF.steps = t.gFly.seq := by rw [← eF]; rfl
+  -- the value read from the counter is the number of goroutines in flight at that instant
+  have hFc : t.rf = (Conc.inFlight sF : Int) := by rw [hrf, ← sF_sh]; exact (reach_inv sF rF).conserve
+  have hb := Conc.limC_bounds cfg t.rmp t.rrt t.rcpu
+  have hc1 := Conc.capOf_ge_one cfg t.rmp t.rrt
+  have hlim : limOf cfg t = limC cfg t.rmp t.rrt t.rcpu := rfl
+  rw [hlim] at hcmp hflim
+  refine ⟨sA, sM, sR, sF, rA, rM, rR, rF, by omega, by omega, by omega, by omega, ?_, ?_, ?_, ?_⟩
+  · rcases hgate with ho | ⟨⟨sD, rD, eD⟩, hdr, ⟨sO, rO, eO⟩, hot, ⟨sN, rN, eN⟩, hw, h1, h2, _⟩
+    · exact Or.inl ho
+    · have hov : t.over = false ∨ t.over = true := by cases t.over <;> simp
+      rcases hov with hov | hov
+      · refine Or.inr ⟨sD, sO, sN, rD, rO, rN, ?_, ?_, ?_, ?_, ?_, ?_⟩
+        · have a : sD.steps = t.gDr.seq := by rw [← eD]; rfl
+          have b : sO.steps = t.gOt.seq := by rw [← eO]; rfl
+          omega
+        · have a : sN.steps = t.gNow.seq := by rw [← eN]; rfl
+          have b : sO.steps = t.gOt.seq := by rw [← eO]; rfl
+          omega
+        · have a : sN.steps = t.gNow.seq := by rw [← eN]; rfl
+          have := hoA hov
+          omega
+        · have a : sD.sh = t.gDr.sh := by rw [← eD]; rfl
+          rw [a]; exact hdr
+        · have a : sO.sh = t.gOt.sh := by rw [← eO]; rfl
+          rw [a]; exact hot
+        · have a : sO.sh = t.gOt.sh := by rw [← eO]; rfl
+          have b : sN.sh = t.gNow.sh := by rw [← eN]; rfl
+          rw [a, b]; exact hw
+      · exact Or.inl hov
+  · rw [sM_sh, sR_sh, ← hrmp, ← hrrt, ← hFc]; grind
+  · rw [sM_sh, sR_sh, ← hrmp, ← hrrt, sA_sh, ← hravg]; grind
+  · have : (0 : Rat) < ((Conc.inFlight sF : Int) : Rat) := by rw [← hFc]; grind
+    have := Rat.intCast_pos.mp this
+    omega
 
--- non-vacuity: three goroutines; 0 and 1 are admitted, 2 reads flying = 2 and is shed against limit 1/10
-example : ((((((Conc.step (Conc.init 3) 0 0 false).bind (Conc.step · 0 0 false)).bind (Conc.step · 1 0 false)).bind
-    (Conc.step · 1 0 false)).bind (Conc.step · 2 0 false)).bind (Conc.step · 2 (1 / 10) true)).map
-    (fun s => (s.flying, Conc.inFlight s, s.ths.map (·.pc))) = some (2, 2, [3, 3, 2]) := by decide +kernel
+
+/-- the older formulation: the value of `flying` a shed was decided on was at least 1 (and was the number of
+requests in flight at its read instant). -/
+theorem shed_read_at_least_one_in_flight (cfg : Cfg) (sh0 : Shared) (n : Nat) (s : Sys) (h : Reach cfg sh0 n s)
+    (t : Th) (ht : t ∈ s.ths) (hd : t.pc = .shed) :
+    1 ≤ t.rf ∧ ∃ sFly, Reach cfg sh0 n sFly ∧ t.rf = (Conc.inFlight sFly : Int) := by
+  have hl := (reach_inv s h).loc t ht
+  obtain ⟨⟨sF, rF, eF⟩, hrf, hflim, _, _⟩ := hl.fly (by simp [hd, PC.stage])
+  have sF_sh : sF.sh = t.gFly.sh := by rw [← eF]; rfl
+  have hFc : t.rf = (Conc.inFlight sF : Int) := by rw [hrf, ← sF_sh]; exact (reach_inv sF rF).conserve
+  have hb := Conc.limC_bounds cfg t.rmp t.rrt t.rcpu
+  have hc1 := Conc.capOf_ge_one cfg t.rmp t.rrt
+  have hlim : limOf cfg t = limC cfg t.rmp t.rrt t.rcpu := rfl
+  rw [hlim] at hflim
+  have : (0 : Rat) < (t.rf : Rat) := by grind
+  have := Rat.intCast_pos.mp this
+  exact ⟨by omega, sF, rF, hFc⟩
+
+-- non-vacuity: three goroutines on a shedder whose average is 3 (capacity 10, CPU at 1000 → limit 1);
+-- 0 and 1 are admitted, the clock ticks, 2 sees the checker say "over", stamps overloadTime = 12, reads
+-- flying = 2 > 1 and is shed; the hypotheses of the theorems above hold for it
+def exCfg : Cfg := ⟨900, 1 / 100⟩
+def exShared : Shared :=
+  { now := 5, flying := 0, avg := 3, overloadTime := 0, dropped := false,
+    passC := RW.new 10 100000000 1 true, rtC := RW.new 10 100000000 1 true }
+def exSchedule : List Act :=
+  [.run 0 {}, .run 1 {}, .run 0 {}, .run 0 {}, .run 2 { over := true }, .run 1 {}, .run 1 {}, .tick 7,
+   .run 2 {}, .run 2 {}, .run 2 {}, .run 2 {}, .run 2 {}, .run 2 { cpu := 1000 }, .run 2 {}, .run 2 {}, .run 2 {}, .run 0 {}]
+
+/-- what the example looks at: flying, goroutines in flight, droppedRecently, overloadTime, then every
+goroutine's value read from `flying`; and every goroutine's position. -/
+def Conc.summary (s : Sys) : List Int × List PC :=
+  ([s.sh.flying, (Conc.inFlight s : Int), if s.sh.dropped then 1 else 0, (s.sh.overloadTime : Int)] ++ s.ths.map (·.rf),
+   s.ths.map (·.pc))
+
+example : (Conc.runActs exCfg (Conc.init exShared 3) exSchedule).map Conc.summary =
+    some ([2, 2, 1, 12, 0, 0, 2], [.inflight, .stamp, .shed]) := by decide +kernel
+
+
+example : ∃ s, Reach exCfg exShared 3 s ∧ ∃ t ∈ s.ths, t.pc = .shed := by
+  cases h : Conc.runActs exCfg (Conc.init exShared 3) exSchedule with
+  | none => exact absurd h (by decide +kernel)
+  | some s =>
+    refine ⟨s, Conc.reach_runActs exCfg exShared 3 exSchedule _ s Reach.init h, ?_⟩
+    have h2 : (Conc.runActs exCfg (Conc.init exShared 3) exSchedule).map (fun s => s.ths.map (·.pc))
+        = some [.inflight, .stamp, .shed] := by decide +kernel
+    rw [h] at h2
+    simp only [Option.map_some, Option.some.injEq] at h2
+    have : PC.shed ∈ s.ths.map (·.pc) := by rw [h2]; simp
+    obtain ⟨t, ht, hp⟩ := List.mem_map.mp this
+    exact ⟨t, ht, hp⟩
+
+/-! ### finding C02-threshold-at-cpumax-nan: the pinned (unguarded) `overloadFactor`
+
+`WithCpuThreshold(1000)` makes `overloadFactor` compute `(1000 − cpu) / 0`.  For `cpu = 1000` — the only reading at
+which the checker `cpu ≥ threshold` says "over" without overshoot — this is `0/0 = NaN`; `mathx.Between` returns NaN
+(both of its comparisons are false), the limit `maxFlight·NaN` is NaN and `avgFlying > NaN` is false: nothing is
+ever shed, however many requests are in flight.  `Pinned` is the model with that behaviour; it differs from the
+model of the fixed code only at threshold = cpuMax = cpu. -/
+
+namespace Pinned
+
+/-- the unguarded factor: `none` = NaN. -/
+def factor (threshold cpu : Int) : Option Rat :=
+  if threshold = cpuMax ∧ cpu = cpuMax then none else some (overloadFactor threshold cpu)
+
+/-- `highThru` with a NaN-aware comparison (`x > NaN` is false). -/
+def highThru (s : Shedder) (now : Nat) (cpu : Int) : Bool :=
+  match factor s.cpuThreshold cpu with
+  | none => false
+  | some f => decide (s.avgFlying > s.maxFlight now * f) && decide ((s.flying : Rat) > s.maxFlight now * f)
+
+def shouldDrop (s : Shedder) (now : Nat) (cpuOver : Bool) (cpu : Int) : Bool :=
+  s.gate now cpuOver && highThru (s.afterGate now cpuOver) now cpu
+
+def verdict (s : Shedder) (now : Nat) (cpuOver : Bool) (cpu : Int) : Verdict :=
+  if shouldDrop s now cpuOver cpu then .overloaded else .admitted
+
+/-- away from threshold = cpuMax = cpu the pinned code and the model of the fixed code agree. -/
+theorem agrees (s : Shedder) (now : Nat) (cpuOver : Bool) (cpu : Int) (h : ¬ (s.cpuThreshold = cpuMax ∧ cpu = cpuMax)) :
+    verdict s now cpuOver cpu = (s.allow now cpuOver cpu).2 := by
+  have ht : (s.afterGate now cpuOver).cpuThreshold = s.cpuThreshold := afterGate_threshold s now cpuOver
+  have hh : highThru (s.afterGate now cpuOver) now cpu = (s.afterGate now cpuOver).highThru now cpu := by
+    unfold highThru factor
+    rw [ht, if_neg h]
+    simp only [Shedder.highThru, Shedder.limit, ht]
+  unfold verdict shouldDrop Shedder.allow Shedder.shouldDrop
+  rw [hh]
+
+/-- 100 ms buckets, no passes (capacity 10), threshold = cpuMax; 50 in flight, average 40. -/
+def exState : Shedder :=
+  { (Shedder.new 1000000000 10 1000 1) with flying := 50, avgFlying := 40 }
+
+/-- **Witness.**  CPU at the threshold (the checker says "over"), in-flight count 50 and its average 40 both above the
+full capacity estimate 10: the property demands a shed (`sheds_when_over_capacity` — the fixed code does shed), the
+pinned code admits the request. -/
+theorem witness :
+    exState.maxFlight 5 = 10
+    ∧ (exState.flying : Rat) > exState.maxFlight 5 ∧ exState.avgFlying > exState.maxFlight 5
+    ∧ verdict exState 5 true 1000 = .admitted
+    ∧ (exState.allow 5 true 1000).2 = .overloaded := by decide +kernel
+
+end Pinned
 
 /-- **A disabled shedder never sheds** (`NewAdaptiveShedder` returns the nop shedder when disabled). -/
 theorem disabled_never_sheds : nopAllow = Verdict.admitted := rfl
